@@ -529,6 +529,7 @@ var directStrategies = []string{
 	"D-honest",
 	"D-recommit-after-reveals", "D-recommit-after-reveals-fast",
 	"D-duplicate-share-different", "D-duplicate-commit-different", "D-duplicate-reveal-different",
+	"D-withhold-share", "D-withhold-commit", "D-withhold-reveal",
 }
 
 // runDirect: FIFO delivery between real backend instances; the deviator is a real instance whose
@@ -583,6 +584,8 @@ func runDirect(c *harness.C, k cell) *out {
 					switch {
 					case strings.HasPrefix(s, "D-recommit") && tag == tagReveal:
 						return // replaced by a reveal that is chosen after the honest reveals
+					case s == "D-withhold-share" && tag == tagShare, s == "D-withhold-commit" && tag == tagCommit, s == "D-withhold-reveal" && tag == tagReveal:
+						return // never sent: the honest parties must give up with an error at their deadline
 					case s == "D-duplicate-share-different" && tag == tagShare:
 						push(false, id, msg, bc, to)
 						push(false, id, append([]byte{tagShare}, cd.shareOff(body)...), bc, to)
